@@ -29,4 +29,7 @@ try:
                 print("      " + l[:400])
 finally:
     subprocess.run(["git", "-C", "/repo", "worktree", "remove", "--force", str(scratch)])
-    # the scratch tree's build products live under /verif/.build/<hash>; prune keeps the newest two
+    # the mutant runs rewrote lean/AsmjitVerif/Gen from the scratch tree: regenerate from /repo
+    subprocess.run([sys.executable, "-c", "import sys; sys.path.insert(0, %r); import importlib, vlib\n"
+                    "m = importlib.import_module('props.%s')\n"
+                    "getattr(m, 'generate', lambda: None)()" % (str(VERIF / "tools"), pid.lower())], cwd=VERIF)
